@@ -85,17 +85,22 @@ class IVal:
 
 
 class StrLen:
-    def __init__(self, fnode: ast.FunctionDef, summaries: Optional[Dict[str, int]] = None, where: str = ""):
+    def __init__(self, fnode: ast.FunctionDef, summaries: Optional[Dict[str, int]] = None, where: str = "",
+                 constants: Optional[Dict[str, int]] = None, helpers: Optional[Dict[str, ast.FunctionDef]] = None, shared=None, depth: int = 0):
         self.fnode = fnode
-        self.iv: Dict[str, Tuple[int, int]] = {}
-        self.n = 0
+        self.iv: Dict[str, Tuple[int, int]] = shared.iv if shared is not None else {}
+        self._counter = shared._counter if shared is not None else [0]
         self.summaries = summaries or {}
         self.where = where
+        self.constants = constants or {}
+        self.helpers = helpers or {}
+        self.depth = depth
         self.returns: List[Tuple[ast.Return, int]] = []
+        self.return_vals: List[SVal] = []
 
     def fresh(self, lo, hi, tag="v") -> Lin:
-        self.n += 1
-        k = f"{tag}{self.n}"
+        self._counter[0] += 1
+        k = f"{tag}{self._counter[0]}"
         self.iv[k] = (lo, hi)
         return Lin(0, {k: 1})
 
@@ -111,6 +116,8 @@ class StrLen:
             return Lin(e.value)
         if isinstance(e, ast.Name) and isinstance(env.get(e.id), IVal):
             return env[e.id].lin
+        if isinstance(e, ast.Name) and e.id not in env and e.id in self.constants:
+            return Lin(self.constants[e.id])
         if isinstance(e, ast.Call) and isinstance(e.func, ast.Name) and e.func.id == "len" and len(e.args) == 1:
             v = self.str_expr(e.args[0], env)
             if v.exact is not None:
@@ -194,11 +201,43 @@ class StrLen:
             if isinstance(fn, ast.Name) and fn.id in self.summaries:
                 ub = self.summaries[fn.id]
                 return SVal(None, [Lin(ub)] if ub < INF else [])
+            if isinstance(fn, ast.Name) and fn.id in self.helpers and self.depth < 3:
+                return self._call_helper(self.helpers[fn.id], e, env)
             if isinstance(fn, ast.Name):
                 return SVal(None, [])      # unknown callee: any length
             if isinstance(fn, ast.Attribute):
                 return SVal(None, [])
         raise AnalysisError(f"{self.where}: string expression not understood: {ast.unparse(e)}")
+
+    def _call_helper(self, hnode: ast.FunctionDef, call: ast.Call, env) -> SVal:
+        """evaluate a module helper with the arguments bound (string / integer), sharing the symbol table"""
+        sub = StrLen(hnode, self.summaries, where=self.where + f" -> {hnode.name}()", constants=self.constants, helpers=self.helpers, shared=self, depth=self.depth + 1)
+        a = hnode.args
+        params = [x.arg for x in list(a.posonlyargs) + list(a.args)]
+        henv: Dict[str, object] = {}
+        pairs = list(zip(params, call.args)) + [(k.arg, k.value) for k in call.keywords if k.arg]
+        given = set()
+        for pn, arg in pairs:
+            given.add(pn)
+            try:
+                henv[pn] = self.str_expr(arg, env)
+                if henv[pn].exact is None:
+                    henv[pn] = SVal(self.fresh(0, self.num_ub(henv[pn]), pn + "_"), list(henv[pn].ubs))
+            except AnalysisError:
+                henv[pn] = IVal(self.int_expr(arg, env))
+        nd = len(a.defaults)
+        for i, pn in enumerate(params):
+            j = i - (len(params) - nd)
+            if pn not in given and j >= 0:
+                d = a.defaults[j]
+                try:
+                    henv[pn] = IVal(sub.int_expr(d, {}))
+                except AnalysisError:
+                    henv[pn] = sub.str_expr(d, {})
+        sub.run_with(henv)
+        if not sub.return_vals:
+            raise AnalysisError(f"{self.where}: helper {hnode.name}() has no analysable return")
+        return self._join(sub.return_vals) if len(sub.return_vals) > 1 else sub.return_vals[0]
 
     def _all_ubs(self, v: SVal) -> List[Lin]:
         return list(v.ubs) + ([v.exact] if v.exact is not None else [])
@@ -254,40 +293,160 @@ class StrLen:
         self._block(self.fnode.body, env)
         return self.returns
 
-    def _block(self, stmts, env):
-        for st in stmts:
-            self._stmt(st, env)
+    def run_with(self, env: Dict[str, object]):
+        """evaluate the function with parameters bound (used for helper calls); returns the joined result"""
+        self._block(self.fnode.body, env)
+        return self.returns
 
-    def _stmt(self, st, env):
+    def _block(self, stmts, env) -> bool:
+        """returns False when the block certainly leaves (return / raise)"""
+        for st in stmts:
+            if not self._stmt(st, env):
+                return False
+        return True
+
+    def _int_like(self, e: ast.AST, env) -> bool:
+        if isinstance(e, ast.Constant):
+            return isinstance(e.value, int) and not isinstance(e.value, bool)
+        if isinstance(e, ast.Name):
+            return isinstance(env.get(e.id), IVal) or (e.id not in env and e.id in self.constants)
+        if isinstance(e, ast.BinOp) and isinstance(e.op, (ast.Add, ast.Sub)):
+            return self._int_like(e.left, env) and self._int_like(e.right, env)
+        if isinstance(e, ast.Call) and isinstance(e.func, ast.Name) and e.func.id == "len":
+            return True
+        if isinstance(e, ast.UnaryOp) and isinstance(e.op, ast.USub):
+            return self._int_like(e.operand, env)
+        return False
+
+    def _assign(self, nm: str, value: ast.AST, env):
+        if self._int_like(value, env):
+            env[nm] = IVal(self.int_expr(value, env))
+            return
+        try:
+            v = self.str_expr(value, env)
+        except AnalysisError as first:
+            try:
+                env[nm] = IVal(self.int_expr(value, env))
+            except AnalysisError:
+                raise first
+            return
+        if v.exact is None:
+            # name the unknown length: one stable symbol per assignment, bounded by what is known
+            sym = self.fresh(0, self.num_ub(v), nm + "_")
+            v = SVal(sym, list(v.ubs))
+        env[nm] = v
+
+    def _refine(self, test: ast.AST, env, positive: bool):
+        """add the facts implied by `test` (or its negation) to env: length bounds and integer upper bounds"""
+        if not (isinstance(test, ast.Compare) and len(test.ops) == 1):
+            return
+        op = test.ops[0]
+        try:
+            lhs = self.int_expr(test.left, env)
+            rhs = self.int_expr(test.comparators[0], env)
+        except AnalysisError:
+            return
+        # normalise to  lhs <= bound
+        bound = None
+        if positive:
+            if isinstance(op, ast.LtE):
+                bound = rhs
+            elif isinstance(op, ast.Lt):
+                bound = rhs - Lin(1)
+        else:
+            if isinstance(op, ast.Gt):
+                bound = rhs
+            elif isinstance(op, ast.GtE):
+                bound = rhs - Lin(1)
+        if bound is None:
+            return
+        # a single symbol with coefficient 1 on the left: tighten its interval if the bound is numeric, and add ub terms to strings of that length
+        for sym, coef in lhs.t.items():
+            if coef != 1:
+                continue
+            rest = lhs - Lin(0, {sym: 1})
+            term = bound - rest
+            hi = term.hi(self.iv)
+            lo0, hi0 = self.iv[sym]
+            if hi < hi0:
+                self.iv[sym] = (lo0, hi)
+            for k, v in list(env.items()):
+                if isinstance(v, SVal) and v.exact is not None and v.exact == Lin(0, {sym: 1}):
+                    env[k] = SVal(v.exact, v.ubs + [term])
+
+    def _join_env(self, a: dict, b: dict) -> dict:
+        out = {}
+        for k in set(a) | set(b):
+            va, vb = a.get(k), b.get(k)
+            if va is None or vb is None:
+                continue
+            if isinstance(va, SVal) and isinstance(vb, SVal):
+                j = self._join([va, vb])
+                if j.exact is None:
+                    j = SVal(self.fresh(0, self.num_ub(j), k + "_"), list(j.ubs))
+                out[k] = j
+            elif isinstance(va, IVal) and isinstance(vb, IVal):
+                if va.lin == vb.lin:
+                    out[k] = va
+                else:
+                    out[k] = IVal(self.fresh(min(va.lin.lo(self.iv), vb.lin.lo(self.iv)), max(va.lin.hi(self.iv), vb.lin.hi(self.iv)), k + "_"))
+        return out
+
+    def _stmt(self, st, env) -> bool:
         if isinstance(st, ast.Assign) and len(st.targets) == 1 and isinstance(st.targets[0], ast.Name):
             nm = st.targets[0].id
-            try:
-                v = self.str_expr(st.value, env)
-            except AnalysisError as first:
-                try:
-                    env[nm] = IVal(self.int_expr(st.value, env))
-                except AnalysisError:
-                    raise first
-                return
-            if v.exact is None:
-                # name the unknown length: one stable symbol per assignment, bounded by what is known
-                sym = self.fresh(0, self.num_ub(v), nm + "_")
-                v = SVal(sym, list(v.ubs))
-            env[nm] = v
-            return
+            self._assign(nm, st.value, env)
+            return True
+        if isinstance(st, ast.AugAssign) and isinstance(st.target, ast.Name) and isinstance(st.op, ast.Add):
+            self._assign(st.target.id, ast.BinOp(left=ast.Name(id=st.target.id, ctx=ast.Load()), op=ast.Add(), right=st.value), env)
+            return True
         if isinstance(st, ast.Return):
             if st.value is not None:
                 v = self.str_expr(st.value, env)
                 self.returns.append((st, self.num_ub(v)))
-            return
+                self.return_vals.append(v)
+            return False
+        if isinstance(st, ast.Raise):
+            return False
         if isinstance(st, ast.If):
-            self._block(st.body, dict(env))
-            self._block(st.orelse, dict(env))
-            # variables assigned in branches become unknown afterwards (not needed by the repo's shape)
-            for n in ast.walk(st):
-                if isinstance(n, ast.Name) and isinstance(n.ctx, ast.Store):
-                    env.pop(n.id, None)
-            return
+            # the symbol table is shared with helper evaluations: it is only ever mutated in place
+            e1, e2 = dict(env), dict(env)
+            saved = dict(self.iv)
+            self._refine(st.test, e1, True)
+            c1 = self._block(st.body, e1)
+            iv1 = dict(self.iv)
+            for k, v in saved.items():
+                self.iv[k] = v
+            self._refine(st.test, e2, False)
+            c2 = self._block(st.orelse, e2)
+            iv2 = dict(self.iv)
+
+            def setiv(which):
+                for k in saved:
+                    if which == "both":
+                        a, b = iv1.get(k, saved[k]), iv2.get(k, saved[k])
+                        self.iv[k] = (min(a[0], b[0]), max(a[1], b[1]))
+                    elif which == 1:
+                        self.iv[k] = iv1.get(k, saved[k])
+                    else:
+                        self.iv[k] = iv2.get(k, saved[k])
+                for k, v in iv1.items():
+                    self.iv.setdefault(k, v)
+            if c1 and c2:
+                setiv("both")
+                new = self._join_env(e1, e2)
+            elif c1:
+                setiv(1)
+                new = e1
+            elif c2:
+                setiv(2)
+                new = e2
+            else:
+                setiv("both")
+                return False
+            env.clear()
+            env.update(new)
+            return True
         if isinstance(st, ast.For):
             it = st.iter
             if isinstance(it, ast.Call) and isinstance(it.func, ast.Name) and it.func.id == "range" and isinstance(st.target, ast.Name) \
@@ -297,8 +456,45 @@ class StrLen:
                 env2 = dict(env)
                 env2[st.target.id] = IVal(self.fresh(lo, hi, st.target.id + "_"))
                 self._block(st.body, env2)
-                return
+                return True
             raise AnalysisError(f"{self.where}: loop form not understood: {ast.unparse(st).splitlines()[0]}")
-        if isinstance(st, (ast.Expr, ast.Raise, ast.Pass)):
-            return
+        if isinstance(st, ast.While):
+            # counters: integer variables incremented in the body start at their current value and are unbounded above
+            # until a raising guard `if c >= K: raise` bounds them
+            body_assigned = {n.id for n in ast.walk(st) if isinstance(n, ast.Name) and isinstance(n.ctx, ast.Store)}
+            pre = dict(env)
+            env2 = dict(env)
+            for nm in body_assigned:
+                v = env2.get(nm)
+                if isinstance(v, IVal):
+                    env2[nm] = IVal(self.fresh(v.lin.lo(self.iv), INF, nm + "_"))
+                elif isinstance(v, SVal):
+                    env2[nm] = SVal(self.fresh(0, INF, nm + "_"), [])      # refined below by a second pass
+            # first pass to learn what the body assigns, second pass with the join of pre-loop and body values
+            trial = dict(env2)
+            for nm in body_assigned:
+                if isinstance(pre.get(nm), SVal):
+                    trial[nm] = pre[nm]
+            self._block(st.body, trial)
+            head = dict(env2)
+            for nm in body_assigned:
+                if isinstance(pre.get(nm), SVal) and isinstance(trial.get(nm), SVal):
+                    j = self._join([pre[nm], trial[nm]])
+                    if j.exact is None:
+                        j = SVal(self.fresh(0, self.num_ub(j), nm + "_"), list(j.ubs))
+                    head[nm] = j
+            final = dict(head)
+            self._block(st.body, final)
+            out = self._join_env(head, final) if True else head
+            for nm in body_assigned:
+                if isinstance(pre.get(nm), SVal) and isinstance(final.get(nm), SVal):
+                    j = self._join([pre[nm], final[nm]])
+                    if j.exact is None:
+                        j = SVal(self.fresh(0, self.num_ub(j), nm + "_"), list(j.ubs))
+                    out[nm] = j
+            env.clear()
+            env.update(out)
+            return True
+        if isinstance(st, (ast.Expr, ast.Pass)):
+            return True
         raise AnalysisError(f"{self.where}: statement not understood: {ast.unparse(st).splitlines()[0]}")
